@@ -5,6 +5,9 @@ import RoaringModel.Lemmas.EncodeSpec
 import RoaringModel.Lemmas.CodecKernel
 import RoaringModel.Lemmas.Canonical
 import RoaringModel.Lemmas.SpecRoundTrip
+import RoaringModel.Lemmas.TreemapCodec
+import RoaringModel.Lemmas.TreemapEncodeSpec
+import RoaringModel.Lemmas.TreemapCodecWF
 /-!
 # C05 — serialization is exact, deterministic and format-conformant (32-bit half)
 -/
@@ -94,5 +97,114 @@ example : Bitmap.WF [{ key := 0, store := .array [1, 5, 65535] }, { key := 65535
   simp only [List.mem_cons, List.not_mem_nil, or_false] at hc
   rcases hc with rfl | rfl <;> refine ⟨by decide, by decide, ?_, by decide, by decide⟩ <;>
     (intro x hx; simp only [List.mem_cons, List.not_mem_nil, or_false] at hx; omega)
+
+end Roaring.C05
+
+/-!
+# C05, 64-bit half — `RoaringTreemap` (treemap/serialization.rs)
+
+Lifted from the 32-bit theorems above through the bucket loop (`Lemmas/TreemapCodec.lean`,
+`Lemmas/TreemapEncodeSpec.lean`, instantiated at `Bitmap.WF` in `Lemmas/TreemapCodecWF.lean`); nothing about
+the 32-bit format is re-proved.  Well-formed treemap = `Treemap.WFd Bitmap.WF` (`Treemap.TWF`, the invariant of
+every other treemap family: partition keys strictly ascending `u32`s, every partition a `Bitmap.WF` value with
+an element); it is equivalent to the codec's own `Treemap.SerWF Bitmap.WF` ("… and not the empty bitmap").
+All theorems are unconditional.
+-/
+namespace Roaring.C05
+open Roaring Roaring.Parser
+
+/-- well-formed treemap (the shared invariant `Treemap.TWF`) -/
+abbrev TreemapWF (t : Treemap) : Prop := Treemap.WFd Bitmap.WF t
+
+/-- the codec's view of the invariant: keys strictly ascending `u32`s, every partition `Bitmap.WF` and not the
+    empty bitmap -/
+theorem C05_t_wf_iff (t : Treemap) : TreemapWF t ↔ Treemap.SerWF Bitmap.WF t := (Treemap.serWF_iff t).symm
+
+/-- `serialize_into` writes exactly `serialized_size()` bytes. -/
+theorem C05_t_size (t : Treemap) (h : Treemap.WFd Bitmap.WF t) :
+    (Treemap.serialize t).length = Treemap.serializedSize t :=
+  Treemap.serialize_length t (fun p hp => C05_size p.2 (h.parts p hp).2.1)
+
+/-- The bytes are a `u64` partition count followed by (`u32` key, 32-bit stream) pairs in strictly ascending
+    key order, every 32-bit stream being the standard encoding of the partition (`C05_bytes`). -/
+theorem C05_t_framing (t : Treemap) (h : Treemap.WFd Bitmap.WF t) :
+    Treemap.serialize t = u64le t.length ++ t.flatMap (fun p => u32le p.1 ++ Bitmap.serialize p.2) ∧
+    (t.map (·.1)).Pairwise (· < ·) ∧ leVal (u64le t.length) = t.length ∧
+    (∀ p ∈ t, leVal (u32le p.1) = p.1) ∧
+    ∀ p ∈ t, Bitmap.serialize p.2 = Spec.encode (Bitmap.elems p.2) :=
+  ⟨rfl, h.sorted, leVal_u64le _ (by have := h.length_le; omega), fun p hp => leVal_u32le _ (h.parts p hp).1,
+   fun p hp => C05_bytes p.2 (h.parts p hp).2.1⟩
+
+/-- Decoding the output with `deserialize_from` (`chk = true`) or `deserialize_unchecked_from` (`chk = false`),
+    in either build configuration, returns a value structurally equal to the original (hence `==`), and
+    leaves untouched whatever follows the serialisation in the stream. -/
+theorem C05_t_decode (chk dbg : Bool) (t : Treemap) (h : Treemap.WFd Bitmap.WF t) (rest : List Nat) :
+    Treemap.deserialize chk dbg (Treemap.serialize t ++ rest) = .ok (t, rest) :=
+  Treemap.deserialize_serialize chk dbg (fun b hb r => C05_decode chk dbg b hb r) t h.toSer rest
+
+theorem C05_t_decode_eq (chk dbg : Bool) (t : Treemap) (h : Treemap.WFd Bitmap.WF t) :
+    ∃ t', Treemap.deserialize chk dbg (Treemap.serialize t) = .ok (t', []) ∧ t' = t := by
+  refine ⟨t, ?_, rfl⟩
+  have := C05_t_decode chk dbg t h []
+  simpa using this
+
+/-- a treemap with the lowest and the highest partition key meets `TreemapWF` -/
+example : TreemapWF [(0, [{ key := 0, store := .array [1, 5, 65535] }]),
+                     (4294967295, [{ key := 65535, store := .array [0] }])] := by
+  apply (C05_t_wf_iff _).mpr
+  refine ⟨by simp [Treemap.KeysSorted, Treemap.keys, TL.Sorted], ?_⟩
+  intro p hp
+  simp only [List.mem_cons, List.not_mem_nil, or_false] at hp
+  rcases hp with rfl | rfl <;> refine ⟨by decide, BitmapWF.toWF ?_, by simp⟩ <;> simp [BitmapWF, StoreWF]
+
+/-- concrete bytes (no hypothesis): count 2, key 0 + stream, key `u32::MAX` + stream -/
+example : Treemap.serialize [(0, [{ key := 0, store := .array [5] }]), (4294967295, [{ key := 0, store := .array [5] }])]
+    = [2, 0, 0, 0, 0, 0, 0, 0,
+       0, 0, 0, 0, 58, 48, 0, 0, 1, 0, 0, 0, 0, 0, 0, 0, 16, 0, 0, 0, 5, 0,
+       255, 255, 255, 255, 58, 48, 0, 0, 1, 0, 0, 0, 0, 0, 0, 0, 16, 0, 0, 0, 5, 0] := by decide
+
+/-- The treemap bytes are the reference encoding of the 64-bit portable format (`Spec.encode64`, written from the
+    format description: `u64` count, ascending `u32` keys each followed by the standard 32-bit encoding of the low
+    halves) **determined by the element set alone**.  Unconditional: the 32-bit layer is `C05_bytes`; the 64-bit
+    layer (bucket keys = distinct high halves, bucket contents = low halves, count) is proved in
+    `Lemmas/TreemapEncodeSpec.lean`. -/
+theorem C05_t_bytes (t : Treemap) (h : Treemap.WFd Bitmap.WF t) :
+    Treemap.serialize t = Spec.encode64 (Treemap.elems t) :=
+  Treemap.serialize_eq_encode64 t h.partsOK h.sorted (fun p hp => C05_bytes p.2 (h.parts p hp).2.1)
+
+/-- the full statement as a `Prop` -/
+def C05_t_bytes_statement : Prop :=
+  ∀ t : Treemap, Treemap.WFd Bitmap.WF t → Treemap.serialize t = Spec.encode64 (Treemap.elems t)
+
+theorem C05_t_bytes_statement_holds : C05_t_bytes_statement := C05_t_bytes
+
+/-- two treemaps with the same elements serialise to the same bytes (history-independence): the bytes are a
+    function of the element list alone … -/
+theorem C05_t_deterministic (a b : Treemap) (ha : Treemap.WFd Bitmap.WF a) (hb : Treemap.WFd Bitmap.WF b)
+    (he : Treemap.elems a = Treemap.elems b) : Treemap.serialize a = Treemap.serialize b := by
+  rw [C05_t_bytes a ha, C05_t_bytes b hb, he]
+
+/-- … and indeed (canonical form, `Treemap.canonical`) the two values are the same representation. -/
+theorem C05_t_deterministic_repr (a b : Treemap) (ha : Treemap.WFd Bitmap.WF a) (hb : Treemap.WFd Bitmap.WF b)
+    (he : Treemap.elems a = Treemap.elems b) : a = b := Treemap.canonical a b ha hb he
+
+/-- conversely, equal bytes ⇒ equal values: serialisation is injective on well-formed treemaps -/
+theorem C05_t_injective (a b : Treemap) (ha : Treemap.WFd Bitmap.WF a) (hb : Treemap.WFd Bitmap.WF b)
+    (he : Treemap.serialize a = Treemap.serialize b) : a = b := by
+  have h1 := C05_t_decode true false a ha []
+  have h2 := C05_t_decode true false b hb []
+  rw [he, h2] at h1
+  simp only [Except.ok.injEq, Prod.mk.injEq, and_true] at h1
+  exact h1.symm
+
+/-- the output is accepted by the strict reference decoder of the portable format, which reads back exactly the
+    value's elements and leaves what follows -/
+theorem C05_t_conformant (t : Treemap) (h : Treemap.WFd Bitmap.WF t) (rest : List Nat) :
+    Spec.decode64 (Treemap.serialize t ++ rest) = some (Treemap.elems t, rest) :=
+  Treemap.specDecode64_serialize t h rest
+
+/-- concrete agreement (no hypothesis): partitions 0 and `u32::MAX` -/
+example : Treemap.serialize [(0, [{ key := 0, store := .array [1, 5] }]), (4294967295, [{ key := 65535, store := .array [65535] }])]
+    = Spec.encode64 [1, 5, 18446744073709551615] := by decide
 
 end Roaring.C05
